@@ -351,13 +351,40 @@ End Conformance.
 
 (* ------------------------------------------------------------------ response shape checker *)
 
+Definition json_eqb_str (j : json) (x : str) : bool :=
+  match j with JStr y => str_eqb x y | _ => false end.
+
+(* the entries of a response object against the grouped field set, given the check [chk] of a value *)
+Fixpoint fields_shape_ok (s : schema) (chk : ty -> list selection -> json -> bool) (rt : str)
+  (g : grouped) (kvs : list (str * json)) : bool :=
+  match g with
+  | [] => match kvs with [] => true | _ => false end
+  | (k, fs) :: rest =>
+    match fs with
+    | [] => fields_shape_ok s chk rt rest kvs
+    | f1 :: _ =>
+      if str_eqb (fs_name f1) n_typename then
+        match kvs with
+        | (k', j) :: kvs' => str_eqb k k' && json_eqb_str j rt && fields_shape_ok s chk rt rest kvs'
+        | [] => false
+        end
+      else
+        match lookup_field s rt (fs_name f1) with
+        | None => fields_shape_ok s chk rt rest kvs
+        | Some fd =>
+          match kvs with
+          | (k', j) :: kvs' =>
+              str_eqb k k' && chk (f_type fd) (merged_sels fs) j && fields_shape_ok s chk rt rest kvs'
+          | [] => false
+          end
+        end
+    end
+  end.
+
 Section ShapeCheck.
   Variable s : schema.
   Variable frags : list fragment.
   Variable cv : list (str * value).
-
-  Definition json_eqb_str (j : json) (x : str) : bool :=
-    match j with JStr y => str_eqb x y | _ => false end.
 
   (* decides [shaped] (Spec.v) up to fuel; runtime types of abstract positions are searched *)
   Fixpoint shape_ok (fuel : nat) (t : ty) (sels : list selection) (j : json) : bool :=
@@ -392,31 +419,7 @@ Section ShapeCheck.
     | S f =>
       match collect s frags cv rt f sels ([], []) with
       | None => false
-      | Some (_, g) =>
-        (fix go (g : grouped) (kvs : list (str * json)) : bool :=
-           match g with
-           | [] => match kvs with [] => true | _ => false end
-           | (k, fs) :: rest =>
-             match fs with
-             | [] => go rest kvs
-             | f1 :: _ =>
-               if str_eqb (fs_name f1) n_typename then
-                 match kvs with
-                 | (k', j) :: kvs' => str_eqb k k' && json_eqb_str j rt && go rest kvs'
-                 | [] => false
-                 end
-               else
-                 match lookup_field s rt (fs_name f1) with
-                 | None => go rest kvs
-                 | Some fd =>
-                   match kvs with
-                   | (k', j) :: kvs' =>
-                       str_eqb k k' && shape_ok f (f_type fd) (merged_sels fs) j && go rest kvs'
-                   | [] => false
-                   end
-                 end
-             end
-           end) g kvs
+      | Some (_, g) => fields_shape_ok s (shape_ok f) rt g kvs
       end
     end.
 End ShapeCheck.
